@@ -46,11 +46,12 @@ def cases(draw, tier="quick"):
         if tier == "thorough":
             dts += ["<i2", "<u2", "<u4"]
         dt = draw(st.sampled_from(dts))
-    n = draw(st.integers(1, 24 if tier == "quick" else 40))
+    many = draw(st.integers(0, 5)) == 0
+    n = draw(st.integers(1, 24 if tier == "quick" else 40)) if not many else draw(st.integers(20, 44))
     batch = draw(st.sampled_from([[], [], [], [2], [3], [1], [2, 2], [1, 3]]))
     nb = int(np.prod(batch)) if batch else 1
     vals = gen.draw_values(draw, n * nb, dt, func)
-    lab = gen.draw_labels(draw, n, kinds=gen.LABEL_KINDS + ["datetime"])
+    lab = gen.draw_labels(draw, n, kinds=gen.LABEL_KINDS + ["datetime"], max_groups=26 if many else 6)
     case = {
         "arr": {"dt": dt, "sh": batch + [n], "v": vals},
         "by": lab["spec"],
@@ -63,8 +64,8 @@ def cases(draw, tier="quick"):
     for v in lab["spec"]["v"]:
         if v not in ("nan", "nat") and v not in present:
             present.append(v)
-    if present and draw(st.integers(0, 3)) == 0:
-        k = draw(st.integers(1, len(present)))
+    if present and draw(st.integers(0, 3 if not many else 1)) == 0:
+        k = draw(st.integers(1, len(present))) if not many else draw(st.integers(max(1, len(present) - 3), len(present)))
         sub = sorted(draw(st.permutations(present))[:k])
         case["expected"] = {"labels": sub, "as": draw(st.sampled_from(["array", "list", "index"]))}
         if lab["kind"] == "floatint" and all(float(x).is_integer() for x in sub) and draw(st.booleans()):
